@@ -156,241 +156,245 @@ def run(ctx: Context) -> None:
     ctx.require(len(concrete) >= 5, f"expected >= 5 concrete DimensionConvention classes, found {len(concrete)}")
 
     # ---------------- R01.1
-    seen_pairs = set()
-    for ci in concrete:
-        pack = p.resolve_method(ci, 'pack_index')
-        unpack = p.resolve_method(ci, 'unpack_index')
-        ctx.require(pack is not None and unpack is not None and not pack.is_abstract and not unpack.is_abstract,
-                    f"{ci.short}: pack_index/unpack_index not concrete")
-        gd = p.resolve_method(ci, 'grid_dimensions')
-        ctx.require(gd is not None and not gd.is_abstract, f"{ci.short}.grid_dimensions not concrete")
-        key = (pack.qualname, unpack.qualname, gd.qualname)
-        if key in seen_pairs:
-            continue
-        seen_pairs.add(key)
-        arity = _dims_arity(ctx, ci, gd)
-        ctx.require(arity is not None, f"{gd.short}: cannot read the number of dimensions per grid kind")
-        K = sym('K')
-        A = tuple(sym(f"a{i}") for i in range(arity))
-        try:
-            packed = TupleEval(pack, {pack.params[1]: K, pack.params[2]: A}).run()
-            unpacked = TupleEval(unpack, {unpack.params[1]: packed}).run()
-        except Unsupported as exc:
-            raise AnalysisError(f"{ci.short}: pack/unpack uses a construct outside the tuple algebra: {exc}")
-        kinds_fi, kind_entries = keyed_collection(ctx, ci, 'grid_kinds')
-        all_kinds = expand_entries(ctx, kind_entries)
-        single_kind = len({k for k, _ in all_kinds}) == 1
-        ok_shape = isinstance(unpacked, tuple) and not is_atom(unpacked) and len(unpacked) == 2
-        ok_idx = ok_shape and unpacked[1] == A
-        k2 = unpacked[0] if ok_shape else None
-        ok_kind = ok_shape and (k2 == K or (single_kind and is_atom(k2) and k2[0] == 'const'
-                                             and p.canonical(unpack.module.resolve(k2[1])) in {k for k, _ in all_kinds}))
-        ctx.check('R01.1', ok_idx, f"unpack(pack(K, a)) returns the indexes a unchanged (arity {arity})", unpack, unpack.node,
-                  construct=f"{ci.short}: unpack(pack(K, {show(A)})) = {show(unpacked)}")
-        ctx.check('R01.1', ok_kind, "unpack(pack(K, a)) returns the kind K", unpack, unpack.node,
-                  construct=f"{ci.short}: kind of unpack(pack(K, a)) = {show(k2) if k2 is not None else '?'}")
-        # pack(*unpack(I)) == I for I in the image of pack
-        try:
-            if ok_shape:
-                repacked = TupleEval(pack, {pack.params[1]: K if ok_kind else unpacked[0], pack.params[2]: unpacked[1]}).run()
-            else:
-                repacked = None
-        except Unsupported as exc:
-            raise AnalysisError(f"{ci.short}: {exc}")
-        ctx.check('R01.1', repacked == packed, "pack(*unpack(I)) == I", pack, pack.node,
-                  construct=f"{ci.short}: pack(*unpack({show(packed)})) = {show(repacked) if repacked is not None else '?'}")
+    with ctx.section('R01.1'):
+        seen_pairs = set()
+        for ci in concrete:
+            pack = p.resolve_method(ci, 'pack_index')
+            unpack = p.resolve_method(ci, 'unpack_index')
+            ctx.require(pack is not None and unpack is not None and not pack.is_abstract and not unpack.is_abstract,
+                        f"{ci.short}: pack_index/unpack_index not concrete")
+            gd = p.resolve_method(ci, 'grid_dimensions')
+            ctx.require(gd is not None and not gd.is_abstract, f"{ci.short}.grid_dimensions not concrete")
+            key = (pack.qualname, unpack.qualname, gd.qualname)
+            if key in seen_pairs:
+                continue
+            seen_pairs.add(key)
+            arity = _dims_arity(ctx, ci, gd)
+            ctx.require(arity is not None, f"{gd.short}: cannot read the number of dimensions per grid kind")
+            K = sym('K')
+            A = tuple(sym(f"a{i}") for i in range(arity))
+            try:
+                packed = TupleEval(pack, {pack.params[1]: K, pack.params[2]: A}).run()
+                unpacked = TupleEval(unpack, {unpack.params[1]: packed}).run()
+            except Unsupported as exc:
+                raise AnalysisError(f"{ci.short}: pack/unpack uses a construct outside the tuple algebra: {exc}")
+            kinds_fi, kind_entries = keyed_collection(ctx, ci, 'grid_kinds')
+            all_kinds = expand_entries(ctx, kind_entries)
+            single_kind = len({k for k, _ in all_kinds}) == 1
+            ok_shape = isinstance(unpacked, tuple) and not is_atom(unpacked) and len(unpacked) == 2
+            ok_idx = ok_shape and unpacked[1] == A
+            k2 = unpacked[0] if ok_shape else None
+            ok_kind = ok_shape and (k2 == K or (single_kind and is_atom(k2) and k2[0] == 'const'
+                                                 and p.canonical(unpack.module.resolve(k2[1])) in {k for k, _ in all_kinds}))
+            ctx.check('R01.1', ok_idx, f"unpack(pack(K, a)) returns the indexes a unchanged (arity {arity})", unpack, unpack.node,
+                      construct=f"{ci.short}: unpack(pack(K, {show(A)})) = {show(unpacked)}")
+            ctx.check('R01.1', ok_kind, "unpack(pack(K, a)) returns the kind K", unpack, unpack.node,
+                      construct=f"{ci.short}: kind of unpack(pack(K, a)) = {show(k2) if k2 is not None else '?'}")
+            # pack(*unpack(I)) == I for I in the image of pack
+            try:
+                if ok_shape:
+                    repacked = TupleEval(pack, {pack.params[1]: K if ok_kind else unpacked[0], pack.params[2]: unpacked[1]}).run()
+                else:
+                    repacked = None
+            except Unsupported as exc:
+                raise AnalysisError(f"{ci.short}: {exc}")
+            ctx.check('R01.1', repacked == packed, "pack(*unpack(I)) == I", pack, pack.node,
+                      construct=f"{ci.short}: pack(*unpack({show(packed)})) = {show(repacked) if repacked is not None else '?'}")
 
     # ---------------- R01.2 / R01.3 / R01.5 on the shared implementations
-    for fi in p.implementations(base, 'ravel_index'):
-        flow = ctx.flow(fi)
-        calls = [c for c in calls_in(fi) if callee(ctx, fi, c) == 'numpy.ravel_multi_index']
-        ctx.need('R01.2', len(calls) == 1, f"expected one numpy.ravel_multi_index call, found {len(calls)}", fi)
-        call = calls[0]
-        unpack_calls = [c for c in calls_in(fi) if isinstance(c.func, ast.Attribute) and c.func.attr == 'unpack_index']
-        ctx.need('R01.2', len(unpack_calls) == 1, f"expected one unpack_index call", fi)
-        uc = flow.canon(unpack_calls[0])
-        ok_u = (len(unpack_calls[0].args) == 1 and flow.canon(unpack_calls[0].args[0]) == ('param', fi.params[1])
-                and flow.canon(unpack_calls[0].func.value) == ('param', 'self'))
-        ctx.check('R01.2', ok_u, "the native index argument is unpacked by self.unpack_index", fi, unpack_calls[0])
-        a0 = call.args[0] if call.args else kwarg(call, 'multi_index')
-        a1 = call.args[1] if len(call.args) > 1 else kwarg(call, 'dims')
-        ctx.need('R01.2', a0 is not None and a1 is not None, f"ravel_multi_index without both arguments", fi)
-        ctx.check('R01.2', flow.canon(a0) == ('unpack', uc, (1,)), "the multi-index is the unpacked index tuple, unpermuted", fi, call,
-                  construct=f"multi_index={norm_text(flow.resolve(a0))}")
-        want_shape = ('sub', ('attr', ('param', 'self'), 'grid_shape'), ('unpack', uc, (0,)))
-        ctx.check('R01.2', flow.canon(a1) == want_shape, "the shape is self.grid_shape[<kind of the unpacked index>]", fi, call,
-                  construct=f"dims={norm_text(flow.resolve(a1))}")
-        _no_wrap(ctx, fi, call, ('mode', 'order'))
-        # the result passes only through int()
-        for r in fi.returns():
-            v = flow.resolve(r.value)
-            while isinstance(v, ast.Call) and isinstance(v.func, ast.Name) and v.func.id == 'int' and len(v.args) == 1:
-                v = flow.resolve(v.args[0])
-            ctx.check('R01.3', v is call, "the linear index is the numpy result itself (no offset, modulo or clamp)", fi, r)
+    with ctx.section('R01.2 / R01.3 / R01.5 on the shared implementations'):
+        for fi in p.implementations(base, 'ravel_index'):
+            flow = ctx.flow(fi)
+            calls = [c for c in calls_in(fi) if callee(ctx, fi, c) == 'numpy.ravel_multi_index']
+            ctx.need('R01.2', len(calls) == 1, f"expected one numpy.ravel_multi_index call, found {len(calls)}", fi)
+            call = calls[0]
+            unpack_calls = [c for c in calls_in(fi) if isinstance(c.func, ast.Attribute) and c.func.attr == 'unpack_index']
+            ctx.need('R01.2', len(unpack_calls) == 1, f"expected one unpack_index call", fi)
+            uc = flow.canon(unpack_calls[0])
+            ok_u = (len(unpack_calls[0].args) == 1 and flow.canon(unpack_calls[0].args[0]) == ('param', fi.params[1])
+                    and flow.canon(unpack_calls[0].func.value) == ('param', 'self'))
+            ctx.check('R01.2', ok_u, "the native index argument is unpacked by self.unpack_index", fi, unpack_calls[0])
+            a0 = call.args[0] if call.args else kwarg(call, 'multi_index')
+            a1 = call.args[1] if len(call.args) > 1 else kwarg(call, 'dims')
+            ctx.need('R01.2', a0 is not None and a1 is not None, f"ravel_multi_index without both arguments", fi)
+            ctx.check('R01.2', flow.canon(a0) == ('unpack', uc, (1,)), "the multi-index is the unpacked index tuple, unpermuted", fi, call,
+                      construct=f"multi_index={norm_text(flow.resolve(a0))}")
+            want_shape = ('sub', ('attr', ('param', 'self'), 'grid_shape'), ('unpack', uc, (0,)))
+            ctx.check('R01.2', flow.canon(a1) == want_shape, "the shape is self.grid_shape[<kind of the unpacked index>]", fi, call,
+                      construct=f"dims={norm_text(flow.resolve(a1))}")
+            _no_wrap(ctx, fi, call, ('mode', 'order'))
+            # the result passes only through int()
+            for r in fi.returns():
+                v = flow.resolve(r.value)
+                while isinstance(v, ast.Call) and isinstance(v.func, ast.Name) and v.func.id == 'int' and len(v.args) == 1:
+                    v = flow.resolve(v.args[0])
+                ctx.check('R01.3', v is call, "the linear index is the numpy result itself (no offset, modulo or clamp)", fi, r)
 
-    for fi in p.implementations(base, 'wind_index'):
-        flow = ctx.flow(fi)
-        calls = [c for c in calls_in(fi) if callee(ctx, fi, c) == 'numpy.unravel_index']
-        ctx.need('R01.2', len(calls) == 1, f"expected one numpy.unravel_index call, found {len(calls)}", fi)
-        call = calls[0]
-        a0 = call.args[0] if call.args else kwarg(call, 'indices')
-        a1 = call.args[1] if len(call.args) > 1 else kwarg(call, 'shape')
-        ctx.need('R01.2', a0 is not None and a1 is not None, f"unravel_index without both arguments", fi)
-        ctx.check('R01.2', flow.canon(a0) == ('param', fi.params[1]), "the linear index argument is unravelled as given", fi, call,
-                  construct=f"indices={norm_text(flow.resolve(a0))}")
-        packs = [c for c in calls_in(fi) if isinstance(c.func, ast.Attribute) and c.func.attr == 'pack_index']
-        ctx.need('R01.2', len(packs) == 1 and len(packs[0].args) == 2, f"expected one pack_index(kind, indexes) call", fi)
-        pk = packs[0]
-        sh = flow.resolve(a1)
-        ok_shape = (isinstance(sh, ast.Subscript) and flow.canon(sh.value) == ('attr', ('param', 'self'), 'grid_shape')
-                    and flow.canon(sh.slice) == flow.canon(pk.args[0]))
-        ctx.check('R01.2', ok_shape, "the shape is self.grid_shape[<the kind handed to pack_index>]", fi, call,
-                  construct=f"shape={norm_text(sh)} ; pack kind={norm_text(pk.args[0])}")
-        layers, core = peel_sequence(flow, pk.args[1])
-        ok_layers = all(l[0] == 'conv' or (l[0] == 'map' and dotted(l[1]) == 'int') for l in layers)
-        ctx.check('R01.2', core is call and ok_layers, "pack_index receives the unravelled tuple in order (only tuple/map(int))", fi, pk,
-                  construct=f"indexes={norm_text(flow.resolve(pk.args[1]))}")
-        _no_wrap(ctx, fi, call, ('order',))
-        for r in fi.returns():
-            ctx.check('R01.3', flow.resolve(r.value) is pk, "the native index is the packed result itself", fi, r)
-        # R01.5
-        kind_param = 'grid_kind'
-        ctx.need('R01.5', kind_param in fi.params, f"no grid_kind parameter", fi)
-        assigns = [n for n in walk_no_nested(fi.node) if isinstance(n, ast.Assign)
-                   and any(isinstance(t, ast.Name) and t.id == kind_param for t in n.targets)]
-        ok = True
-        detail = 'no substitution'
-        for a in assigns:
-            gs = enclosing_ifs(fi, a)
-            good_guard = any(inb and isinstance(st.test, ast.Compare) and len(st.test.ops) == 1
-                             and isinstance(st.test.ops[0], ast.Is) and is_none(st.test.comparators[0])
-                             and isinstance(st.test.left, ast.Name) and st.test.left.id == kind_param
-                             for st, inb in gs)
-            good_value = flow.canon(a.value) == ('attr', ('param', 'self'), 'default_grid_kind')
-            ok = ok and good_guard and good_value
-            detail = norm_text(a)
-        # the kind used must be the parameter (possibly defaulted)
-        used = flow.canon(pk.args[0])
-        uses_param = used == ('param', kind_param) or (used[0] == 'phi' and ('param', kind_param) in used)
-        ctx.check('R01.5', ok and uses_param, "grid_kind is the caller's value, replaced by default_grid_kind only under `grid_kind is None`", fi,
-                  assigns[0] if assigns else fi.node, construct=f"kind substitution: {detail}; kind used: {norm_text(pk.args[0])}")
+        for fi in p.implementations(base, 'wind_index'):
+            flow = ctx.flow(fi)
+            calls = [c for c in calls_in(fi) if callee(ctx, fi, c) == 'numpy.unravel_index']
+            ctx.need('R01.2', len(calls) == 1, f"expected one numpy.unravel_index call, found {len(calls)}", fi)
+            call = calls[0]
+            a0 = call.args[0] if call.args else kwarg(call, 'indices')
+            a1 = call.args[1] if len(call.args) > 1 else kwarg(call, 'shape')
+            ctx.need('R01.2', a0 is not None and a1 is not None, f"unravel_index without both arguments", fi)
+            ctx.check('R01.2', flow.canon(a0) == ('param', fi.params[1]), "the linear index argument is unravelled as given", fi, call,
+                      construct=f"indices={norm_text(flow.resolve(a0))}")
+            packs = [c for c in calls_in(fi) if isinstance(c.func, ast.Attribute) and c.func.attr == 'pack_index']
+            ctx.need('R01.2', len(packs) == 1 and len(packs[0].args) == 2, f"expected one pack_index(kind, indexes) call", fi)
+            pk = packs[0]
+            sh = flow.resolve(a1)
+            ok_shape = (isinstance(sh, ast.Subscript) and flow.canon(sh.value) == ('attr', ('param', 'self'), 'grid_shape')
+                        and flow.canon(sh.slice) == flow.canon(pk.args[0]))
+            ctx.check('R01.2', ok_shape, "the shape is self.grid_shape[<the kind handed to pack_index>]", fi, call,
+                      construct=f"shape={norm_text(sh)} ; pack kind={norm_text(pk.args[0])}")
+            layers, core = peel_sequence(flow, pk.args[1])
+            ok_layers = all(l[0] == 'conv' or (l[0] == 'map' and dotted(l[1]) == 'int') for l in layers)
+            ctx.check('R01.2', core is call and ok_layers, "pack_index receives the unravelled tuple in order (only tuple/map(int))", fi, pk,
+                      construct=f"indexes={norm_text(flow.resolve(pk.args[1]))}")
+            _no_wrap(ctx, fi, call, ('order',))
+            for r in fi.returns():
+                ctx.check('R01.3', flow.resolve(r.value) is pk, "the native index is the packed result itself", fi, r)
+            # R01.5
+            kind_param = 'grid_kind'
+            ctx.need('R01.5', kind_param in fi.params, f"no grid_kind parameter", fi)
+            assigns = [n for n in walk_no_nested(fi.node) if isinstance(n, ast.Assign)
+                       and any(isinstance(t, ast.Name) and t.id == kind_param for t in n.targets)]
+            ok = True
+            detail = 'no substitution'
+            for a in assigns:
+                gs = enclosing_ifs(fi, a)
+                good_guard = any(inb and isinstance(st.test, ast.Compare) and len(st.test.ops) == 1
+                                 and isinstance(st.test.ops[0], ast.Is) and is_none(st.test.comparators[0])
+                                 and isinstance(st.test.left, ast.Name) and st.test.left.id == kind_param
+                                 for st, inb in gs)
+                good_value = flow.canon(a.value) == ('attr', ('param', 'self'), 'default_grid_kind')
+                ok = ok and good_guard and good_value
+                detail = norm_text(a)
+            # the kind used must be the parameter (possibly defaulted)
+            used = flow.canon(pk.args[0])
+            uses_param = used == ('param', kind_param) or (used[0] == 'phi' and ('param', kind_param) in used)
+            ctx.check('R01.5', ok and uses_param, "grid_kind is the caller's value, replaced by default_grid_kind only under `grid_kind is None`", fi,
+                      assigns[0] if assigns else fi.node, construct=f"kind substitution: {detail}; kind used: {norm_text(pk.args[0])}")
 
-    for fi in p.implementations(base, 'grid_shape'):
-        flow = ctx.flow(fi)
-        for r in fi.returns():
-            v = flow.resolve(r.value)
-            ok = False
-            detail = norm_text(v)
-            if isinstance(v, ast.DictComp) and len(v.generators) == 1 and not v.generators[0].ifs \
-                    and isinstance(v.generators[0].target, ast.Name) and isinstance(v.key, ast.Name) \
-                    and v.key.id == v.generators[0].target.id \
-                    and flow.canon(v.generators[0].iter) == ('attr', ('param', 'self'), 'grid_kinds'):
-                kvar = v.key.id
-                layers, core = peel_sequence(flow, v.value)
-                comp = [l for l in layers if l[0] == 'comp']
-                others = [l for l in layers if l[0] not in ('comp', 'conv')]
-                if len(comp) == 1 and not others and isinstance(comp[0][2], ast.Name):
-                    dvar = comp[0][2].id
-                    elt = comp[0][1]
-                    elt_ok = (isinstance(elt, ast.Subscript) and isinstance(elt.slice, ast.Name) and elt.slice.id == dvar
-                              and dotted(elt.value) == 'self.dataset.sizes')
-                    core_ok = (isinstance(core, ast.Subscript) and dotted(core.value) == 'self.grid_dimensions'
-                               and isinstance(core.slice, ast.Name) and core.slice.id == kvar)
-                    ok = elt_ok and core_ok
-            ctx.check('R01.2', ok, "grid_shape[kind] = tuple(dataset.sizes[d] for d in grid_dimensions[kind]) for kind in grid_kinds, in order", fi, r,
-                      construct=f"grid_shape = {detail}")
-    for fi in p.implementations(base, 'grid_size'):
-        flow = ctx.flow(fi)
-        for r in fi.returns():
-            v = flow.resolve(r.value)
-            ok = False
-            if isinstance(v, ast.DictComp) and len(v.generators) == 1 and not v.generators[0].ifs:
-                g = v.generators[0]
-                it = flow.resolve(g.iter)
-                if isinstance(it, ast.Call) and isinstance(it.func, ast.Attribute) and it.func.attr == 'items' \
-                        and dotted(it.func.value) == 'self.grid_shape' and isinstance(g.target, ast.Tuple) \
-                        and len(g.target.elts) == 2 and all(isinstance(e, ast.Name) for e in g.target.elts) \
-                        and isinstance(v.key, ast.Name) and v.key.id == g.target.elts[0].id:
-                    val = v.value
-                    while isinstance(val, ast.Call) and isinstance(val.func, ast.Name) and val.func.id == 'int' and len(val.args) == 1:
-                        val = val.args[0]
-                    if isinstance(val, ast.Call) and callee(ctx, fi, val) in ('numpy.prod', 'math.prod') and len(val.args) == 1 \
-                            and not val.keywords and isinstance(val.args[0], ast.Name) and val.args[0].id == g.target.elts[1].id:
-                        ok = True
-            ctx.check('R01.2', ok, "grid_size[kind] = prod(grid_shape[kind])", fi, r, construct=f"grid_size = {norm_text(v)}")
+        for fi in p.implementations(base, 'grid_shape'):
+            flow = ctx.flow(fi)
+            for r in fi.returns():
+                v = flow.resolve(r.value)
+                ok = False
+                detail = norm_text(v)
+                if isinstance(v, ast.DictComp) and len(v.generators) == 1 and not v.generators[0].ifs \
+                        and isinstance(v.generators[0].target, ast.Name) and isinstance(v.key, ast.Name) \
+                        and v.key.id == v.generators[0].target.id \
+                        and flow.canon(v.generators[0].iter) == ('attr', ('param', 'self'), 'grid_kinds'):
+                    kvar = v.key.id
+                    layers, core = peel_sequence(flow, v.value)
+                    comp = [l for l in layers if l[0] == 'comp']
+                    others = [l for l in layers if l[0] not in ('comp', 'conv')]
+                    if len(comp) == 1 and not others and isinstance(comp[0][2], ast.Name):
+                        dvar = comp[0][2].id
+                        elt = comp[0][1]
+                        elt_ok = (isinstance(elt, ast.Subscript) and isinstance(elt.slice, ast.Name) and elt.slice.id == dvar
+                                  and dotted(elt.value) == 'self.dataset.sizes')
+                        core_ok = (isinstance(core, ast.Subscript) and dotted(core.value) == 'self.grid_dimensions'
+                                   and isinstance(core.slice, ast.Name) and core.slice.id == kvar)
+                        ok = elt_ok and core_ok
+                ctx.check('R01.2', ok, "grid_shape[kind] = tuple(dataset.sizes[d] for d in grid_dimensions[kind]) for kind in grid_kinds, in order", fi, r,
+                          construct=f"grid_shape = {detail}")
+        for fi in p.implementations(base, 'grid_size'):
+            flow = ctx.flow(fi)
+            for r in fi.returns():
+                v = flow.resolve(r.value)
+                ok = False
+                if isinstance(v, ast.DictComp) and len(v.generators) == 1 and not v.generators[0].ifs:
+                    g = v.generators[0]
+                    it = flow.resolve(g.iter)
+                    if isinstance(it, ast.Call) and isinstance(it.func, ast.Attribute) and it.func.attr == 'items' \
+                            and dotted(it.func.value) == 'self.grid_shape' and isinstance(g.target, ast.Tuple) \
+                            and len(g.target.elts) == 2 and all(isinstance(e, ast.Name) for e in g.target.elts) \
+                            and isinstance(v.key, ast.Name) and v.key.id == g.target.elts[0].id:
+                        val = v.value
+                        while isinstance(val, ast.Call) and isinstance(val.func, ast.Name) and val.func.id == 'int' and len(val.args) == 1:
+                            val = val.args[0]
+                        if isinstance(val, ast.Call) and callee(ctx, fi, val) in ('numpy.prod', 'math.prod') and len(val.args) == 1 \
+                                and not val.keywords and isinstance(val.args[0], ast.Name) and val.args[0].id == g.target.elts[1].id:
+                            ok = True
+                ctx.check('R01.2', ok, "grid_size[kind] = prod(grid_shape[kind])", fi, r, construct=f"grid_size = {norm_text(v)}")
 
     # ---------------- R01.4 / R01.6 per convention
-    seen = set()
-    for ci in concrete:
-        gd = p.resolve_method(ci, 'grid_dimensions')
-        kinds_fi, kind_entries = keyed_collection(ctx, ci, 'grid_kinds')
-        dims_fi, dim_entries = keyed_collection(ctx, ci, 'grid_dimensions')
-        sig = (gd.qualname, kinds_fi.qualname if kinds_fi else 'attr')
-        if sig in seen:
-            continue
-        seen.add(sig)
-        kinds = expand_entries(ctx, kind_entries)
-        dims = expand_entries(ctx, dim_entries)
-        keys_of = [k for k, _ in dims if isinstance(k, tuple) and k[0] == 'keys-of']
-        if keys_of:
-            # table driven (ArakawaC): every class level table must list every kind, and __init__ must validate
-            attr = keys_of[0][1].split('.')[-1]
-            kind_names = {k for k, _ in kinds}
-            tables = []
-            for c in p.subclasses(ci if ci.qualname in p.classes else ci):
-                pass
-            owner = dims_fi.cls
-            for c in p.subclasses(owner):
-                if attr in c.attrs and isinstance(c.attrs[attr], ast.Dict):
-                    tables.append((c, c.attrs[attr]))
-            ctx.require(tables, f"{owner.short}: no class level {attr} table found")
-            for c, table in tables:
-                tkeys = {p.canonical(c.module.resolve(dotted(k))) for k in table.keys if dotted(k)}
-                ctx.check('R01.4', tkeys == kind_names, f"the {attr} table lists exactly the grid kinds", dims_fi, table,
-                          construct=f"{c.short}.{attr} keys {sorted(x.rsplit('.', 1)[-1] for x in tkeys)}")
-            init = p.resolve_method(owner, '__init__')
-            ok_init = False
-            if init is not None:
-                for n in walk_no_nested(init.node):
-                    if isinstance(n, ast.If) and isinstance(n.test, ast.Compare) and len(n.test.ops) == 1 \
-                            and isinstance(n.test.ops[0], ast.NotEq) \
-                            and any(isinstance(s, ast.Raise) for s in n.body):
-                        txt = norm_text(n.test)
-                        if attr in txt and 'set(' in txt:
-                            ok_init = True
-            ctx.check('R01.4', ok_init, f"a {attr} argument is rejected unless its keys are exactly the grid kinds", init or dims_fi,
-                      (init or dims_fi).node, construct=f"{owner.short}.__init__ validates {attr} keys")
-            # R01.6: dims of the kind's own coordinate variable
-            comp = [n for n in ast.walk(dims_fi.node) if isinstance(n, ast.DictComp)]
-            ok6 = False
-            if comp:
-                dc = comp[0]
-                tgt = dc.generators[0].target
-                if isinstance(tgt, ast.Tuple) and len(tgt.elts) == 2 and isinstance(tgt.elts[1], ast.Name):
-                    cvar = tgt.elts[1].id
-                    val = dc.value
-                    while isinstance(val, ast.Call) and (dotted(val.func) or '').rsplit('.', 1)[-1] == 'cast':
-                        val = val.args[1]
-                    if isinstance(val, ast.Attribute) and val.attr == 'dims' and isinstance(val.value, ast.Subscript) \
-                            and dotted(val.value.value) == 'self.dataset' and isinstance(val.value.slice, ast.Subscript) \
-                            and isinstance(val.value.slice.value, ast.Name) and val.value.slice.value.id == cvar \
-                            and const_value(val.value.slice.slice, None) in (0, 1):
-                        ok6 = True
-            ctx.check('R01.6', ok6, "each kind's dimensions are the dims of that kind's own coordinate variable, unpermuted", dims_fi,
-                      comp[0] if comp else dims_fi.node)
-        else:
-            ctx.check('R01.4', {k for k, _ in kinds} == {k for k, _ in dims}, "grid_dimensions has exactly the grid_kinds as keys", dims_fi,
-                      dims_fi.node, construct=f"{ci.short}: kinds {sorted(str(k).rsplit('.', 1)[-1] for k, _ in kinds)} vs dimension keys {sorted(str(k).rsplit('.', 1)[-1] for k, _ in dims)}")
-            ctx.check('R01.4', kinds == dims, "optional kinds are added to both tables under the same condition", dims_fi, dims_fi.node,
-                      construct=f"{ci.short}: guards of optional kinds agree: {sorted((str(k).rsplit('.', 1)[-1], g is not None) for k, g in kinds ^ dims)}")
-            # R01.6: name agreement kind <-> <kind>_dimension handle
-            _kind_dimension_names(ctx, ci, dims_fi)
-        # default kind
-        dk = p.resolve_class_attr(ci, 'default_grid_kind')
-        ctx.require(dk is not None, f"{ci.short}: default_grid_kind is not a class attribute")
-        dkq = p.canonical(dk[0].module.resolve(dotted(dk[1]) or ''))
-        ctx.check('R01.4', any(k == dkq and g is None for k, g in kinds), "default_grid_kind is an unconditional member of grid_kinds", dims_fi,
-                  dk[1], construct=f"{ci.short}.default_grid_kind = {norm_text(dk[1])}")
+    with ctx.section('R01.4 / R01.6 per convention'):
+        seen = set()
+        for ci in concrete:
+            gd = p.resolve_method(ci, 'grid_dimensions')
+            kinds_fi, kind_entries = keyed_collection(ctx, ci, 'grid_kinds')
+            dims_fi, dim_entries = keyed_collection(ctx, ci, 'grid_dimensions')
+            sig = (gd.qualname, kinds_fi.qualname if kinds_fi else 'attr')
+            if sig in seen:
+                continue
+            seen.add(sig)
+            kinds = expand_entries(ctx, kind_entries)
+            dims = expand_entries(ctx, dim_entries)
+            keys_of = [k for k, _ in dims if isinstance(k, tuple) and k[0] == 'keys-of']
+            if keys_of:
+                # table driven (ArakawaC): every class level table must list every kind, and __init__ must validate
+                attr = keys_of[0][1].split('.')[-1]
+                kind_names = {k for k, _ in kinds}
+                tables = []
+                for c in p.subclasses(ci if ci.qualname in p.classes else ci):
+                    pass
+                owner = dims_fi.cls
+                for c in p.subclasses(owner):
+                    if attr in c.attrs and isinstance(c.attrs[attr], ast.Dict):
+                        tables.append((c, c.attrs[attr]))
+                ctx.require(tables, f"{owner.short}: no class level {attr} table found")
+                for c, table in tables:
+                    tkeys = {p.canonical(c.module.resolve(dotted(k))) for k in table.keys if dotted(k)}
+                    ctx.check('R01.4', tkeys == kind_names, f"the {attr} table lists exactly the grid kinds", dims_fi, table,
+                              construct=f"{c.short}.{attr} keys {sorted(x.rsplit('.', 1)[-1] for x in tkeys)}")
+                init = p.resolve_method(owner, '__init__')
+                ok_init = False
+                if init is not None:
+                    for n in walk_no_nested(init.node):
+                        if isinstance(n, ast.If) and isinstance(n.test, ast.Compare) and len(n.test.ops) == 1 \
+                                and isinstance(n.test.ops[0], ast.NotEq) \
+                                and any(isinstance(s, ast.Raise) for s in n.body):
+                            txt = norm_text(n.test)
+                            if attr in txt and 'set(' in txt:
+                                ok_init = True
+                ctx.check('R01.4', ok_init, f"a {attr} argument is rejected unless its keys are exactly the grid kinds", init or dims_fi,
+                          (init or dims_fi).node, construct=f"{owner.short}.__init__ validates {attr} keys")
+                # R01.6: dims of the kind's own coordinate variable
+                comp = [n for n in ast.walk(dims_fi.node) if isinstance(n, ast.DictComp)]
+                ok6 = False
+                if comp:
+                    dc = comp[0]
+                    tgt = dc.generators[0].target
+                    if isinstance(tgt, ast.Tuple) and len(tgt.elts) == 2 and isinstance(tgt.elts[1], ast.Name):
+                        cvar = tgt.elts[1].id
+                        val = dc.value
+                        while isinstance(val, ast.Call) and (dotted(val.func) or '').rsplit('.', 1)[-1] == 'cast':
+                            val = val.args[1]
+                        if isinstance(val, ast.Attribute) and val.attr == 'dims' and isinstance(val.value, ast.Subscript) \
+                                and dotted(val.value.value) == 'self.dataset' and isinstance(val.value.slice, ast.Subscript) \
+                                and isinstance(val.value.slice.value, ast.Name) and val.value.slice.value.id == cvar \
+                                and const_value(val.value.slice.slice, None) in (0, 1):
+                            ok6 = True
+                ctx.check('R01.6', ok6, "each kind's dimensions are the dims of that kind's own coordinate variable, unpermuted", dims_fi,
+                          comp[0] if comp else dims_fi.node)
+            else:
+                ctx.check('R01.4', {k for k, _ in kinds} == {k for k, _ in dims}, "grid_dimensions has exactly the grid_kinds as keys", dims_fi,
+                          dims_fi.node, construct=f"{ci.short}: kinds {sorted(str(k).rsplit('.', 1)[-1] for k, _ in kinds)} vs dimension keys {sorted(str(k).rsplit('.', 1)[-1] for k, _ in dims)}")
+                ctx.check('R01.4', kinds == dims, "optional kinds are added to both tables under the same condition", dims_fi, dims_fi.node,
+                          construct=f"{ci.short}: guards of optional kinds agree: {sorted((str(k).rsplit('.', 1)[-1], g is not None) for k, g in kinds ^ dims)}")
+                # R01.6: name agreement kind <-> <kind>_dimension handle
+                _kind_dimension_names(ctx, ci, dims_fi)
+            # default kind
+            dk = p.resolve_class_attr(ci, 'default_grid_kind')
+            ctx.require(dk is not None, f"{ci.short}: default_grid_kind is not a class attribute")
+            dkq = p.canonical(dk[0].module.resolve(dotted(dk[1]) or ''))
+            ctx.check('R01.4', any(k == dkq and g is None for k, g in kinds), "default_grid_kind is an unconditional member of grid_kinds", dims_fi,
+                      dk[1], construct=f"{ci.short}.default_grid_kind = {norm_text(dk[1])}")
+
 
 
 def _no_wrap(ctx: Context, fi, call: ast.Call, kws) -> None:
